@@ -724,8 +724,9 @@ class Evaluator:
                         if x.attr not in o.attrs:
                             raise Raised("AttributeError")
                         del o.attrs[x.attr]
-                    elif isinstance(x, ast.Subscript) and not isinstance(x.slice, ast.Slice):
-                        o, k = self.ev(x.value, fr), self.ev(x.slice, fr)
+                    elif isinstance(x, ast.Subscript):
+                        o = self.ev(x.value, fr)
+                        k = self._slice(x.slice, fr) if isinstance(x.slice, ast.Slice) else self.ev(x.slice, fr)
                         if o is POISON or k is POISON or _deep_poison(k):
                             raise Unknown("del of an undetermined item")
                         if not isinstance(o, (dict, list)):
